@@ -48,7 +48,8 @@ ASSUMPTIONS = ["no task cancellation while waiting for the lock; a process is si
 RULE = ("cycle: c0 in 0..7 x n<=40; inproc: 1-4 tasks x 1-2 critical sections x 0-3 exchanges, random batched schedules; "
         "terminal: 2-3 tasks x 1-3 SDO transfers with random yields; cross: 1-3 processes x 1-2 tasks, file absent or "
         "initialised, random (process, task) schedules + every interleaving of the first four steps of two processes on an "
-        "absent file; fork: fixed witness schedules; non-trivial = at least two users sent a message")
+        "absent file (thorough: every interleaving of all eight steps of two processes on an initialised file); fork: fixed "
+        "witness and control schedules; non-trivial = at least two users sent a message")
 
 KNOWN_CLASSES = ("creation-window", "same-process-tasks", "addr-upper-bound")
 
@@ -998,6 +999,24 @@ def window_family():
     return out
 
 
+def full_family():
+    """thorough tier: initialised file, two processes with one exchange each: every interleaving of their eight
+    steps (open x2, lockf, pread, send, recv, pwrite, unlock), then both alternately until done"""
+    out = []
+
+    def rec(a, b, acc):
+        if a == 8 and b == 8:
+            out.append({"op": "cross", "size": 2, "off": 0, "file": [7, 0], "tasks": [[[1]], [[1]]],
+                        "sched": acc + [[0, 0], [1, 0]] * 8})
+            return
+        if a < 8:
+            rec(a + 1, b, acc + [[0, 0]])
+        if b < 8:
+            rec(a, b + 1, acc + [[1, 0]])
+    rec(0, 0, [])
+    return out
+
+
 WITNESS_WINDOW = {"op": "cross", "backend": "fork", "size": 4, "off": 1, "file": None, "tasks": [[[1]], [[1]]],
                   "sched": [[0, 0], [1, 0], [1, 0], [1, 0], [1, 0], [0, 0], [0, 0], [0, 0]]}
 WITNESS_SAMEPROC = {"op": "cross", "backend": "fork", "size": 4, "off": 1, "file": [0, 0, 0, 0], "tasks": [[[1], [1]]],
@@ -1031,6 +1050,8 @@ def run(ctx):
               [lo, lo + 1, hi - 1, hi] + [rng.randrange(lo, hi + 1) for _ in range(ctx.n(20, 200))]]
     cases += fork_family()
     cases += window_family()
+    if not ctx.quick:
+        cases += full_family()
     cases += [gen_inproc(rng) for _ in range(ctx.n(700, 20000))]
     cases += [gen_terminal(rng) for _ in range(ctx.n(150, 3000))]
     cases += [gen_cross(rng) for _ in range(ctx.n(700, 20000))]
